@@ -69,6 +69,7 @@ RATES = [8000, 12000, 16000, 24000, 48000]
 FRAMES_X10 = [25, 50, 100, 200, 400, 600, 800, 1000, 1200]          # frame duration in units of 0.1 ms
 BWMAX = {8000: 1, 12000: 2, 16000: 3, 24000: 4, 48000: 5}
 DESIGN_SEED = 20260929
+POOL_LIMIT = 1 << 30     # pool signal seeds are <= POOL_LIMIT, fresh ones above it
 SHARP = (3, 1)       # families with a sharp, unique autocorrelation peak (noise, sweep): the delay is measurable
 
 
@@ -182,7 +183,7 @@ def all_templates(tier):
 
 # ------------------------------------------------------------------ running the harness
 
-def run_rt(h, lines, workers=16):
+def run_rt(h, lines, workers=8):
     """Feed configuration lines to `h rt` in parallel shards; returns {line: output}."""
     if not lines:
         return {}
@@ -234,69 +235,120 @@ def chan_family(t, j):
 
 
 def metrics(t, m):
-    """Scalar metrics of one round trip; every one has a calibrated one-sided bound."""
+    """Scalar metrics of one round trip; every one has a calibrated reference value per (template, pool seed)."""
     chs = m['ch']
     Fs = t['Fs']
     out = {
         'snr_min': min(c['snr'] for c in chs),
+        'pk_min': min(c['pk'] for c in chs),
         'lvl_abs': max(abs(c['lvl']) for c in chs),
         'band_abs': max([abs(b) for c in chs for b in c['bands'] if b is not None] or [0.0]),
         'gain_min_db': min(20 * math.log10(c['gain']) if c['gain'] > 1e-3 else -60.0 for c in chs),
         'gain_max_db': max(20 * math.log10(c['gain']) if c['gain'] > 1e-3 else -60.0 for c in chs),
     }
     # cross-correlation peak position; periodic signals (multitone, harmonic) have no unique peak, so only channels
-    # carrying a noise / sweep / transient signal are used (channel j carries family (family + j) % 5 unless it is
-    # derived from channel 0 by a stereo relation)
+    # carrying a noise / sweep signal are used (channel j carries family (family + j) % 5 unless it is
+    # derived from channel 0 by a stereo relation).  Signed offsets from the reported look-ahead, in ms.
     lfe = t['ch'] - 1 if (t['kind'] == 'ms1' and t['ch'] >= 6) else -1     # the LFE channel is low-passed: no sharp peak
     sharp = [c for j, c in enumerate(chs) if chan_family(t, j) in SHARP and j != lfe]
     if sharp and all(c['pk'] > 0.5 for c in sharp):
-        out['dly_err_ms'] = max(abs(c['dly'] - m['la']) for c in sharp) * 1000.0 / Fs
+        offs = [(c['dly'] - m['la']) * 1000.0 / Fs for c in sharp]
+        out['dly_max_ms'] = max(offs)
+        out['dly_min_ms'] = min(offs)
     if t['stereo'] == 0 and len(chs) > 1:
         out['cross_max'] = max(abs(c['row'][j]) for i, c in enumerate(chs) for j in range(len(chs)) if j != i)
     return out
 
 
-LOWER = ('snr_min', 'gain_min_db')           # metrics bounded from below; all others from above
-MARGIN = {'snr_min': 3.0, 'gain_min_db': 3.0, 'gain_max_db': 3.0, 'lvl_abs': 3.0, 'band_abs': 3.0, 'dly_err_ms': 0.02, 'cross_max': 0.1}
+def dly_err_ms(mt):
+    return max(abs(mt['dly_max_ms']), abs(mt['dly_min_ms'])) if 'dly_max_ms' in mt else None
+
+
+# Metrics bounded from below (all others from above), and the margin by which a round trip may fall short of the
+# value the unchanged tree produced for the very same configuration line (same template, same signal seed).
+LOWER = ('snr_min', 'pk_min', 'gain_min_db', 'dly_min_ms')
+MARGIN = {'snr_min': 3.0, 'pk_min': 0.1, 'gain_min_db': 1.5, 'gain_max_db': 1.5, 'lvl_abs': 1.5, 'band_abs': 4.0,
+          'dly_max_ms': 0.01, 'dly_min_ms': 0.01, 'cross_max': 0.1}
+TDAC_TOL = 1e-5            # single-precision MDCT round-off on the unchanged tree: 6e-7
+PRIORITY = ['round-trip', 'dly_err_ms', 'dly_max_ms', 'dly_min_ms', 'cross_max', 'snr_min', 'gain_min_db', 'gain_max_db',
+            'pk_min', 'lvl_abs', 'band_abs']     # order in which violated metrics are reported
+SPREAD_FRACTION = 0.25     # ... or this fraction of the template's seed-to-seed spread, whichever is larger
+
+
+def margin_of(t, k, refs):
+    mg = MARGIN[k]
+    if k.startswith('dly_'):
+        mg = max(mg, 0.3 * 1000.0 / t['Fs'])          # 0.3 sample at low rates, 0.01 ms (0.48 sample) at 48 kHz
+    vs = [v for v in refs if v is not None]
+    return max(mg, SPREAD_FRACTION * (max(vs) - min(vs))) if vs else mg
 
 
 def uses_silk(m):
     return m['modes'][0] + m['modes'][1] > 0
 
 
-def universal_checks(t, m, mt):
-    """Bounds that do not come from calibration: the property's own numbers."""
+def delay_limit_ms(t, m):
+    """The property's own number: exact (0.5 sample slack of the peak estimator) for CELT-only coding; +-0.1 ms where
+    the speech layer / its resamplers are involved.  The VOIP application's adaptive high-pass (hp_cutoff,
+    src/opus_encoder.c) gives a signal-dependent phase lead of up to 0.07 ms on the seeded noise on the unchanged tree,
+    so the 0.1 ms allowance is applied to application VOIP too."""
+    half = 0.5 * 1000.0 / t['Fs']
+    return half if (t['app'] != 2048 and not uses_silk(m)) else 0.1 + half
+
+
+def universal_checks(t, m, mt, need_peak):
+    """Bounds that do not come from calibration: the property's own numbers (single-stream delay grid)."""
     bad = []
     if t['cls'] == 'delay' and t['kind'] == 'single':
-        # "delayed by exactly the lookahead ... to within 0.1 ms where the speech layer's resamplers are involved"
-        lim = 0.1 + 0.5 * 1000.0 / t['Fs'] if uses_silk(m) else 0.5 * 1000.0 / t['Fs']
-        if 'dly_err_ms' not in mt:
-            bad.append(('dly_err_ms', 'no correlation peak (pk <= 0.5)', 'a measurable delay at high bitrate'))
-        elif mt['dly_err_ms'] > lim:
-            bad.append(('dly_err_ms', mt['dly_err_ms'], '<= %.4f ms (property: exact, +-0.1 ms with SILK; 0.5 sample estimator slack)' % lim))
+        lim = delay_limit_ms(t, m)
+        e = dly_err_ms(mt)
+        if e is None:
+            if need_peak:
+                bad.append(('dly_err_ms', 'no correlation peak (pk <= 0.5)', 'a measurable delay (the unchanged tree gives one for this line)'))
+        elif e > lim:
+            bad.append(('dly_err_ms', e, '<= %.4f ms (property: exact, +-0.1 ms with SILK / VOIP high-pass; 0.5 sample estimator slack)' % lim))
     return bad
 
 
+def load_cal():
+    """The committed calibration; the check only ever reads it."""
+    if not os.path.exists(CAL_PATH):
+        raise RuntimeError('%s is missing: the round-trip oracle has no reference values (regenerate with '
+                           '`python3 tools/props/C04.py calibrate` on the unchanged tree)' % CAL_PATH)
+    cal = json.load(open(CAL_PATH))
+    cal['_idx'] = {s: i for i, s in enumerate(cal['seeds'])}
+    return cal
+
+
 def check_case(t, sigseed, o, cal):
-    """Returns list of (metric, observed, bound-description) violated by this round trip."""
+    """Returns (violations, metrics, status): violations = list of (metric, observed, bound-description);
+    status = 'ref' (compared with the unchanged tree's values for this very line), 'universal' (fresh signal or
+    template without calibration: only the property's own numbers apply)."""
     m = parse_out(o)
     if m is None:
-        return [('round-trip', o, 'encode and decode succeed')], None
+        return [('round-trip', o, 'encode and decode succeed')], None, 'failed'
     mt = metrics(t, m)
-    bad = universal_checks(t, m, mt)
-    b = cal.get('bounds', {}).get(tid(t))
-    if b is None:
-        bad.append(('calibration', 'missing', 'template %s has no calibrated bounds' % tid(t)))
-        return bad, mt
-    for k, v in mt.items():
-        if k not in b:
+    ref = cal.get('ref', {}).get(tid(t))
+    i = cal.get('_idx', {}).get(sigseed)
+    if ref is None or i is None:
+        return universal_checks(t, m, mt, False), mt, 'universal'
+    bad = universal_checks(t, m, mt, ref.get('dly_max_ms', [None] * (i + 1))[i] is not None)
+    for k, refs in ref.items():
+        r = refs[i]
+        if r is None:
             continue
+        if k not in mt:
+            if not any(b[0] == 'dly_err_ms' for b in bad):
+                bad.append((k, 'not measurable', 'measurable (%.3f on the unchanged tree)' % r))
+            continue
+        v = mt[k]; mg = margin_of(t, k, refs)
         if k in LOWER:
-            if v < b[k]:
-                bad.append((k, v, '>= %.3f (calibrated)' % b[k]))
-        elif v > b[k]:
-            bad.append((k, v, '<= %.3f (calibrated)' % b[k]))
-    return bad, mt
+            if v < r - mg:
+                bad.append((k, v, '>= %.3f (unchanged tree: %.3f, margin %.3f)' % (r - mg, r, mg)))
+        elif v > r + mg:
+            bad.append((k, v, '<= %.3f (unchanged tree: %.3f, margin %.3f)' % (r + mg, r, mg)))
+    bad.sort(key=lambda b: PRIORITY.index(b[0]) if b[0] in PRIORITY else len(PRIORITY))
+    return bad, mt, 'ref'
 
 
 # ------------------------------------------------------------------ ties
@@ -379,27 +431,43 @@ def search(ctx):
         cases += 1
         e = float(mm.group(4))
         worst_tdac = max(worst_tdac, e)
-        if not (e <= 1e-4):
+        if not (e <= TDAC_TOL):
             wit.append({'suite': 'mdct-tdac', 'input': 'c04_roundtrip mdct %d %s  (%s)' % (ctx.seed, '3' if ctx.quick else '12', l),
-                        'expected': 'forward then backward MDCT with overlap-add reproduces the input within 1e-4 relative',
+                        'expected': 'forward then backward MDCT with overlap-add reproduces the input within %g relative' % TDAC_TOL,
                         'observed': 'relative error %s' % mm.group(4),
                         'why': 'clt_mdct_forward_c / clt_mdct_backward_c no longer cancel their aliases (TDAC broken on the real code)'})
-    # (iii)-(v) round trips
-    cal = json.load(open(CAL_PATH)) if os.path.exists(CAL_PATH) else {}
+    # (iii)-(v) round trips.  Two streams:
+    #   pool:  every template with one of the calibrated signal seeds (chosen by VERIF_SEED); every metric is compared
+    #          with what the unchanged tree produced for the very same line (tools/calibration_c04.json)
+    #   fresh: the delay grid once more with a signal drawn from VERIF_SEED; only the property's own delay numbers apply
+    cal = load_cal()
     ts = all_templates(ctx.tier)
     rng = common.SplitMix(ctx.seed * 1000003 + 17)
-    jobs = [(t, 1 + rng.below(1 << 30)) for t in ts]
-    lines = [cfg_line(t, s) for t, s in jobs]
+    K = len(cal['seeds'])
+    jobs, uncal = [], 0
+    for t in ts:
+        if tid(t) in cal['ref']:
+            jobs.append((t, cal['seeds'][rng.below(K)], 'pool'))
+        else:
+            uncal += 1                      # no reference values: not a violation; run as a fresh case
+            jobs.append((t, POOL_LIMIT + 1 + rng.below(1 << 30), 'fresh'))
+    for t in ts:
+        if t['cls'] == 'delay' and t['kind'] == 'single':
+            jobs.append((t, POOL_LIMIT + 1 + rng.below(1 << 30), 'fresh'))
+    lines = [cfg_line(t, s) for t, s, _ in jobs]
     res = run_rt(h, lines)
     nbad = 0
-    worst = {}
-    for (t, s), line in zip(jobs, lines):
+    worst, status, unmeasurable = {}, {}, 0
+    for (t, s, stream), line in zip(jobs, lines):
         o = res.get(line, 'CRASH (no output)')
         cases += 1
-        bad, mt = check_case(t, s, o, cal)
+        bad, mt, st = check_case(t, s, o, cal)
+        status[stream + '/' + st] = status.get(stream + '/' + st, 0) + 1
         if mt:
             for k, v in mt.items():
                 worst[t['cls'] + '.' + k] = (min if k in LOWER else max)(worst.get(t['cls'] + '.' + k, v), v)
+            if stream == 'fresh' and t['cls'] == 'delay' and 'dly_max_ms' not in mt:
+                unmeasurable += 1
         if len(samples) < 3 and not bad and cases % 211 == 0:
             samples.append('%s => %s' % (line, o[:200]))
         if bad:
@@ -409,14 +477,18 @@ def search(ctx):
                 wit.append({'suite': 'roundtrip-' + t['cls'], 'input': line,
                             'expected': '%s %s' % (k, want), 'observed': '%s = %s ; all violated: %s ; harness: %s' % (
                                 k, v if isinstance(v, str) else '%.4f' % v, [(a, (b if isinstance(b, str) else round(b, 4))) for a, b, _ in bad], o[:600]),
-                            'why': 'decode(encode(x)) does not reproduce x at the reported delay within the bounds calibrated on the '
-                                   'unchanged tree (replay: echo "%s" | <harness c04_roundtrip> rt)' % line})
+                            'why': 'decode(encode(x)) does not reproduce x at the reported delay as the unchanged tree does for the '
+                                   'same line (replay: echo "%s" | <harness c04_roundtrip> rt)' % line})
     return {'cases': cases, 'distinct': len(ts) + len(tl), 'seconds': round(time.time() - t0, 1),
-            'oracle': 'TDAC of the real MDCT (<=1e-4); per round trip: measured delay = reported look-ahead (exact for CELT-only, '
-                      '+-0.1 ms with SILK), SNR >= floor, |level|, |per-band energy error|, channel gain/sign, cross-talk <= bounds '
-                      'calibrated per template on the unchanged tree',
+            'oracle': 'TDAC of the real MDCT (<=1e-5); per round trip: measured delay = reported look-ahead (0.5 sample for CELT-only, '
+                      '+-0.1 ms with SILK / VOIP high-pass), and SNR, correlation peak, level, per-band energy error, channel gain/sign, '
+                      'cross-talk, signed delay offset within a margin of the values the unchanged tree gave for the same line '
+                      '(margins: %s, or %.2f x the template\'s seed-to-seed spread)' % (MARGIN, SPREAD_FRACTION),
             'templates': {'delay': sum(1 for t in ts if t['cls'] == 'delay'), 'fid': sum(1 for t in ts if t['cls'] == 'fid'),
                           'chan': sum(1 for t in ts if t['cls'] == 'chan')},
+            'calibration': {'file': os.path.relpath(CAL_PATH, common.VERIF), 'pool_seeds': K, 'repo_tree_hash': cal.get('repo_tree_hash'),
+                            'templates_without_reference_skipped': uncal},
+            'streams': status, 'fresh_delay_cases_without_sharp_peak': unmeasurable,
             'worst_tdac_relerr': worst_tdac, 'violating_cases': nbad,
             'extremes': {k: round(v, 4) for k, v in sorted(worst.items())},
             'samples': samples, 'witnesses': wit}
@@ -425,7 +497,7 @@ def search(ctx):
 def replay(ctx, obj):
     """Re-run exactly the failing configuration line(s) of a replay file against the current /repo."""
     h = harness(ctx)
-    cal = json.load(open(CAL_PATH)) if os.path.exists(CAL_PATH) else {}
+    cal = load_cal()
     ts = {tid(t): t for t in all_templates('thorough')}
     ts.update({tid(t): t for t in all_templates('quick')})
     lines = [w['input'] for w in [obj] + obj.get('other_witnesses', []) if str(w.get('input', '')).startswith('rt ')]
@@ -444,7 +516,8 @@ def replay(ctx, obj):
         print('I', line); print('O', o)
         if t is None:
             print('  (template not in the design; metrics only)'); continue
-        bad, mt = check_case(t, int(f[14]), o, cal)
+        bad, mt, st = check_case(t, int(f[14]), o, cal)
+        print('  compared with: %s' % ('the unchanged tree\'s values for this line' if st == 'ref' else 'the property\'s own delay numbers only'))
         for k, v, want in bad:
             print('  VIOLATED %s = %s, expected %s' % (k, v, want)); rc = 1
     print('VIOLATION property=C04 replay=%s' % 'reproduced' if rc else 'replay: no bound violated on the current tree')
@@ -453,53 +526,66 @@ def replay(ctx, obj):
 
 # ------------------------------------------------------------------ calibration (never run by the check)
 
-def calibrate(nseeds=24, tier='thorough'):
+def calibration_templates():
+    """Every template either tier can draw (the quick set is not a subset of the thorough set)."""
+    seen, out = set(), []
+    for tier in ('quick', 'thorough'):
+        for t in all_templates(tier):
+            if tid(t) not in seen:
+                seen.add(tid(t)); out.append(t)
+    return out
+
+
+def calibrate(nseeds=16, workers=6):
+    """Measure every template of both tiers on the tree VERIF_REPO points to (must be the unchanged /repo) for each
+    of `nseeds` pool signal seeds and write CAL_PATH.  Run by hand only; the check never calls this."""
     from check import Ctx
-    ctx = Ctx('C04', tier, 1)
+    ctx = Ctx('C04', 'thorough', 1)
     h = harness(ctx)
-    ts = all_templates(tier)
-    # keep earlier seeds' raw data? no: a calibration is one self-contained measurement of the current /repo
+    ts = calibration_templates()
     rng = common.SplitMix(0xC04CA1)
-    jobs = []
-    for t in ts:
-        for k in range(nseeds):
-            jobs.append((t, 1 + rng.below(1 << 30)))
-    lines = [cfg_line(t, s) for t, s in jobs]
+    seeds = []
+    while len(seeds) < nseeds:
+        v = 1 + rng.below(POOL_LIMIT)
+        if v not in seeds:
+            seeds.append(v)
+    jobs = [(t, sd) for t in ts for sd in seeds]
+    lines = [cfg_line(t, sd) for t, sd in jobs]
     t0 = time.time()
-    res = run_rt(h, lines)
+    res = run_rt(h, lines, workers=workers)
     print('ran %d round trips in %.0f s' % (len(lines), time.time() - t0))
-    acc = {}
-    fails = 0
-    for (t, s), line in zip(jobs, lines):
+    ref = {}
+    fails = nuniv = 0
+    for (t, sd), line in zip(jobs, lines):
         m = parse_out(res[line])
         if m is None:
             fails += 1
             print('FAILED on clean tree:', line, res[line]); continue
-        ub = universal_checks(t, m, metrics(t, m))
+        mt = metrics(t, m)
+        ub = universal_checks(t, m, mt, t['cls'] == 'delay')
         if ub:
+            nuniv += 1
             print('UNIVERSAL bound violated on clean tree:', line, ub)
-        for k, v in metrics(t, m).items():
-            acc.setdefault(tid(t), {}).setdefault(k, []).append(v)
-    bounds = {}
-    for key, d in acc.items():
-        b = {}
-        for k, vs in d.items():
-            n = len(vs); mean = sum(vs) / n; sd = math.sqrt(sum((v - mean) ** 2 for v in vs) / max(1, n - 1))
-            if k in LOWER:
-                b[k] = round(min(min(vs) - MARGIN[k], mean - 6 * sd) - 0.5 * (max(vs) - min(vs)), 3)
-            else:
-                b[k] = round(max(max(vs) + MARGIN[k], mean + 6 * sd) + 0.5 * (max(vs) - min(vs)), 3)
-        bounds[key] = b
-    cal = {'comment': 'C04 bounds measured on the unchanged tree; rewritten only by `python3 tools/props/C04.py calibrate`',
-           'repo_tree_hash': common.repo_hash(), 'nseeds': nseeds, 'design_seed': DESIGN_SEED,
-           'rule': 'lower bound = min(min - margin, mean - 6 sd) - range/2 ; upper bound = max(max + margin, mean + 6 sd) + range/2',
-           'margin': MARGIN, 'templates': len(bounds), 'bounds': bounds}
-    json.dump(cal, open(CAL_PATH, 'w'), indent=0, sort_keys=True)
-    print('wrote %s: %d templates, %d failures' % (CAL_PATH, len(bounds), fails))
+        d = ref.setdefault(tid(t), {})
+        for k, v in mt.items():
+            d.setdefault(k, [None] * nseeds)[seeds.index(sd)] = round(v, 4)
+    if fails or nuniv:
+        print('NOT WRITTEN: %d failures, %d universal-bound violations on the tree being calibrated' % (fails, nuniv))
+        return 1
+    cal = {'comment': 'C04 reference values measured on the unchanged tree, one per (template, pool signal seed); rewritten only by '
+                      '`python3 tools/props/C04.py calibrate` (never by the check)',
+           'repo_tree_hash': common.repo_hash(), 'design_seed': DESIGN_SEED, 'seeds': seeds,
+           'rule': 'a metric of a round trip may differ from the reference of the same line by at most its margin, or by '
+                   '%.2f x the spread of the reference values of the template over the pool seeds, whichever is larger' % SPREAD_FRACTION,
+           'margin': MARGIN, 'templates': len(ref), 'ref': ref}
+    with open(CAL_PATH, 'w') as f:
+        f.write(json.dumps(cal, sort_keys=True, separators=(',', ':')).replace('},"', '},\n"'))
+    print('wrote %s: %d templates x %d seeds' % (CAL_PATH, len(ref), nseeds))
+    return 0
 
 
 if __name__ == '__main__':
     if len(sys.argv) >= 2 and sys.argv[1] == 'calibrate':
-        calibrate(int(sys.argv[2]) if len(sys.argv) > 2 else 24, sys.argv[3] if len(sys.argv) > 3 else 'thorough')
+        sys.exit(calibrate(int(sys.argv[2]) if len(sys.argv) > 2 else 16))
     else:
         print(__doc__)
